@@ -256,7 +256,7 @@ def tagging_serialize(E):
 TP = TG + '.parse'
 
 
-@harness('c18.tagging.parse.step', ['C18', 'C19'], functions=[TP],
+@harness('c18.tagging.parse.step', ['C18', 'C19'], functions=[TP], replay='c18_tags',
          assumptions=['list induction (decode(enc(x) ++ S) = x :: decode(S)) is meta-level on top of this step contract'])
 def tagging_parse_step(E):
     pre = E.fresh_bytes('P')
@@ -291,7 +291,7 @@ def tagging_parse_step(E):
     E.prove('parse:at_the_end_of_the_buffer_it_stops_without_decoding_anything', at_end and r.attrs['tags'] == [])
 
 
-@harness('c18.tagging.roundtrip.bounded', ['C18'], kind='bounded', functions=[TP, TG + '._serialize_tags'],
+@harness('c18.tagging.roundtrip.bounded', ['C18'], kind='bounded', functions=[TP, TG + '._serialize_tags'], replay='c18_tags',
          assumptions=['BOUNDED: tag lists of length 0..2, symbolic tag contents up to 255 bytes'])
 def tagging_roundtrip(E):
     n = E.path.choice(3, 'number-of-tags')
@@ -427,7 +427,7 @@ def composite_serialize(E):
 
 @harness('c18.composite.parse.step', ['C18', 'C19'], functions=[CMP, X + 'composite_metadata.py::metadata_item_factory',
                                                                X + 'composite_metadata_item.py::CompositeMetadataItem.parse'],
-         assumptions=['list induction is meta-level on top of this step contract'])
+         assumptions=['list induction is meta-level on top of this step contract'], replay='c18_composite')
 def composite_parse_step(E):
     enum = E.lookup(MT)
     pre, suf = E.fresh_bytes('P'), E.fresh_bytes('S')
